@@ -110,6 +110,30 @@ pub fn run(req: &Value) -> Value {
                 Ok(Entry::Vacant(_)) => json!("vacant"),
                 Err(e) => json!({"err": parse_err_name(&e)}),
             },
+            "occ_get_mut_set" => match q.entry(a(1)) {
+                Ok(Entry::Occupied(mut o)) => {
+                    let old = o.get().to_string();
+                    *o.get_mut() = a(2).into();
+                    json!({"old": hx(&old)})
+                },
+                Ok(Entry::Vacant(_)) => json!("vacant"),
+                Err(e) => json!({"err": parse_err_name(&e)}),
+            },
+            "occ_into_mut_set" => match q.entry(a(1)) {
+                Ok(Entry::Occupied(o)) => {
+                    let v = o.into_mut();
+                    let old = v.to_string();
+                    *v = a(2).into();
+                    json!({"old": hx(&old)})
+                },
+                Ok(Entry::Vacant(_)) => json!("vacant"),
+                Err(e) => json!({"err": parse_err_name(&e)}),
+            },
+            "vac_insert" => match q.entry(a(1)) {
+                Ok(Entry::Occupied(_)) => json!("occupied"),
+                Ok(Entry::Vacant(v)) => json!({"ok": hx(v.insert(a(2)))}),
+                Err(e) => json!({"err": parse_err_name(&e)}),
+            },
             "occ_remove" => match q.entry(a(1)) {
                 Ok(Entry::Occupied(o)) => json!({"old": hx(&o.remove())}),
                 Ok(Entry::Vacant(_)) => json!("vacant"),
